@@ -9,6 +9,9 @@ U2S = ("u2_mapper_reader", {"profile": "safety"})
 U10M = ("u10_typed_trace", {"which": "mapper"})
 U10C = ("u10_typed_trace", {"which": "cache"})
 
+U4 = ("u4_cache_parse", {})
+U7 = ("u7_metadata", {})
+
 BUILDERS_ASSUMED = ("ProguardMapper::create_proguard_mapper and the record-collection loop of ProguardCache::write "
                     "(HashMap/BTreeMap entry API, Peekable<FilterMap<..>>, HashSet) are outside both verifiers' reach: that they "
                     "store, per (class, obfuscated method), the method records in file order is ASSUMED")
@@ -74,9 +77,38 @@ PROPS = {
                     "#[derive(Clone)] on Throwable is a field-wise copy"],
         "design_ref": "DESIGN.md 5/C08",
     },
+    "C11": {
+        "title": "Torn, foreign or wrong-version cache files are rejected, never half-read",
+        "units": [U4],
+        "kani": ["k9_parse_error_kinds_le96", "k2_format_constants"],
+        "technique": "Verus contract on ProguardCache::parse against the frozen v1 error-kind table / layout + prefix lemmas; Kani K9 (bounded in buffer length) for the error kinds routed through `?`",
+        "level_text": "Proof, for every buffer and address, that parse returns Err for too-short / misaligned buffers, the endianness / format / "
+                      "version error for the corresponding header, Ok exactly when the length covers the header-implied layout, the "
+                      "UnexpectedStringBytes{expected,found} error when only the string section is short, and that an accepted buffer's sections "
+                      "are exactly the header-declared sub-slices. Lemmas: every strict prefix of a file of exactly the implied length is rejected; "
+                      "acceptance depends only on (address, length, header). The kinds InvalidHeader/InvalidClasses/InvalidMembers are invisible "
+                      "to Verus through `?` (only `is Err` is proved) and are settled by Kani on all buffers of length <= 96 (bounded, labelled).",
+        "assumed": ["watto Pod::ref_from_prefix / slice_from_prefix / align_to follow the address-aware model in contracts/watto_model.rs (they contain the unsafe casts)",
+                    "that a writer-produced file has exactly the implied length is proved on the writer tail (unit u8), not here"],
+        "bounded": ["kani::k9_parse_error_kinds_le96: buffer length <= 96 bytes; NOT counted as proved for longer buffers"],
+        "design_ref": "DESIGN.md 5/C11",
+    },
+    "C19": {
+        "title": "File-level metadata answers equal a fold over the complete record stream",
+        "units": [U7],
+        "kani": [],
+        "technique": "Verus loop invariants over the prophetic iterator spec of ProguardRecordIter (remaining() == records(bytes)) on the real has_line_info / is_valid / MappingSummary::new",
+        "level_text": "Proof for every byte string that has_line_info == exists a method record with a line mapping, is_valid == exists i<j<50 with "
+                      "class at i and field/method at j, class/method counts == number of such records, compiler/compiler_version/min_api == "
+                      "value of the LAST such header; the record stream is defined from ProguardRecordIter::next, which is verified against the "
+                      "prophetic iterator laws.",
+        "assumed": ["parse_proguard_record is a function of the byte contents (r_of / rest_of) and makes progress on non-empty input (progress is proved in unit u5)",
+                    "str::parse::<u32> is abstract (spec_parse_u32)", "string-literal patterns compare by contents (axiom_str_ext)"],
+        "design_ref": "DESIGN.md 5/C19",
+    },
     "C12": {
         "title": "No accepted buffer can make a query panic, overflow or read outside",
-        "units": [U1S],
+        "units": [U1S, U4, U10C],
         "kani": [],
         "technique": "Verus implicit obligations (overflow, bounds, callee preconditions, termination) on the cache reader with NO precondition on field values",
         "level_text": "Every cache reader function is verified with arbitrary u32 field values and arbitrary slice contents: no arithmetic "
@@ -87,8 +119,8 @@ PROPS = {
     },
     "C13": {
         "title": "No mapping bytes and no query can make the library panic or overflow",
-        "units": [U2S],
-        "kani": [],
+        "units": [U2S, U7, U10M],
+        "kani": ["k3_java_base_types"],
         "technique": "Verus implicit obligations on the mapper reader with NO precondition on entry values",
         "level_text": "The mapper's reader functions are verified with arbitrary usize entry values and any frame: no overflow, no out-of-bounds, termination.",
         "assumed": ["builders, java.rs tokenizer, stacktrace.rs classifiers and Display impls are not covered"],
